@@ -100,6 +100,9 @@ HIER = {
     'quoted-star': ({'main.suite': ([], ['"*.case"']), 'other.case': None}, [('main.suite', ['*.case'])], 'main.suite'),
     'quoted-sub-suite-dir': ({'main.suite': (["'v[2]'"], ['m.case']), 'v[2]/exactly.suite': ([], ['a.case'])},
                              [('v[2]/exactly.suite', ['v[2]/a.case']), ('main.suite', ['m.case'])], 'main.suite'),
+    # file names with characters XML does not allow (the JUnit report must stay well-formed; the names are shown with a replacement character)
+    'ctrl-char-in-case-name': ({'main.suite': ([], ['?-c.case', 'z.case'])}, [('main.suite', ['\x01-c.case', 'z.case'])], 'main.suite'),
+    'ctrl-char-in-suite-name': ({'main.suite': (['s\x02b.suite'], []), 's\x02b.suite': ([], ['a.case'])}, [('s\x02b.suite', ['a.case']), ('main.suite', [])], 'main.suite'),
 }
 INVALID = {
     'sub-twice': {'main.suite': (['s.suite', 's.suite'], ['c.case']), 's.suite': ([], ['x.case'])},
@@ -266,7 +269,7 @@ def _run_one(res, case, w, seam, mp, creation):
                     errs.append('junit: suite %s has tests=%s but %d testcase elements' % (ts.get('name'), ts.get('tests'), len(tcs)))
                 bad = 0
                 for t in tcs:
-                    v = verdict_of.get(t.get('name'))
+                    v = {''.join(ch if ch >= ' ' else '\ufffd' for ch in k): vv for k, vv in verdict_of.items()}.get(t.get('name'))
                     marked = t.find('failure') is not None or t.find('error') is not None
                     if v is None:
                         continue
@@ -282,7 +285,8 @@ def _run_one(res, case, w, seam, mp, creation):
                     fe = None
                 if fe != bad:
                     errs.append('junit: suite %s failures+errors = %s, number of unsuccessful cases = %d' % (ts.get('name'), fe, bad))
-            if sorted(seen) != sorted(c for _, c in flat):
+            xs = lambda n: ''.join(ch if (ch in '\t\n\r' or ' ' <= ch <= '\ud7ff' or '\ue000' <= ch <= '\ufffd') else '\ufffd' for ch in n)
+            if sorted(seen) != sorted(xs(c) for _, c in flat):
                 errs.append('junit: testcases %s, cases of the suite %s' % (sorted(seen), sorted(c for _, c in flat)))
     res.outcomes[(rep, 'OK' if all_ok else 'ERROR', o.rc)] += 1
     if not all_ok or len(slots) > 1:
